@@ -16,11 +16,13 @@ open Gama Gama.Proto Gama.C04.Net Gama.C04.Net.Gen
 /-- round 4: the machine run is `MState` (Model/NetState.lean): the cascade plus the solver object's regularisation
     list; `set_algorithm` is `MOp.setAlgorithm` (new solver object with the default list + `update(Points)`).  The list
     content is taken as independent of the configuration (`lst` constant): the most demanding instance — a hand-over
-    "only when the list changed" is then reported as `stale solver-list` after `set_algorithm`. -/
+    "only when the list changed" is then reported as `stale solver-list` after `set_algorithm`.
+    Round 9: `handCode` / `setAlgGen Gen.setAlg` interpret the rows regenerated from network.cpp; `set_algorithm <name>`
+    answers `ok <class>` (model: `classOf Gen.setAlg name`; harness: dynamic type of `least_squares` through the probe). -/
 structure St where
   st : Option MState := none
 
-def minp (throws : Bool) : MInput := { net := { throws := throws }, lst := fun _ => 0 }
+def minp (throws : Bool) : MInput := { net := { throws := throws }, lst := fun _ => [] }
 
 def b01 (x : Bool) : String := if x then "1" else "0"
 
@@ -54,7 +56,8 @@ def call (s : MState) (row : String) (throws : Bool := false) : MState × String
   | some m =>
     let r := mstep (minp throws) s (.net (.call m))
     let lists := match r.2.2 with
-      | some l => if l = curList (minp throws) s.net then "" else " solver-list"
+      | some (l, c) => (if l = curList (minp throws) s.net then "" else " solver-list")
+                       ++ (if c = s.cls then "" else " solver-class")
       | none => ""
     let o := showOut r.1.net.cfg r.2.1
     (r.1, if lists == "" then o else (if o == "sound" then "stale" else o) ++ lists)
@@ -78,7 +81,9 @@ def step' (σ : St) (line : String) : St × String :=
   | "fresh" :: _ => (σ, "-")
   | "chg_obs" :: _ => ({ st := some (chg s 1) }, "ok")
   | "chg_xyz" :: _ => ({ st := some (chg s 2) }, "ok")
-  | ["set_algorithm", _] => ({ st := some (mstep (minp false) s .setAlgorithm).1 }, "ok")
+  | ["set_algorithm", a] =>      -- round 9: the class of the new solver object, from the regenerated `Gen.setAlg`
+    let s' := (mstep (minp false) s (.setAlgorithm a)).1
+    ({ st := some s' }, "ok " ++ s'.cls)
   | [_, "!local"] =>          -- vyrovnani_ threw its own exception (no unknowns / observations / points) after
     let r := call s "project_equations"      -- project_equations(), before the flag is set
     ({ st := some r.1 }, "throw")
